@@ -108,6 +108,7 @@ type c12Ctx struct {
 	term     func() bool
 	innerRet func() bool // all inner sources returned from Run (multiplexed); nil = n/a
 	after    int32
+	failed   int32 // a handler call returned an error
 	onPoint  func(p, count int)
 	idle     chan int
 	fired    chan struct{}
@@ -161,6 +162,9 @@ func (c *c12Ctx) begin(src, b int) int {
 	return n
 }
 func (c *c12Ctx) end(src, b int, ok bool) {
+	if !ok {
+		atomic.StoreInt32(&c.failed, 1)
+	}
 	c.add(c12Lev{K: "HE", A: src, B: b, Ok: ok})
 	atomic.AddInt32(&c.active, -1)
 }
@@ -334,8 +338,10 @@ func c12Drive(ctx *c12Ctx, in *c12In, run func(), shutdown func(), isTerminated 
 		time.Sleep(time.Duration(in.Inj.DelayUs) * time.Microsecond)
 		go shutdown()
 	} else {
+		selfReturned := false
 		select {
 		case <-runDone:
+			selfReturned = true
 		case <-ctx.fired:
 		case <-ctx.idle:
 			// quiescent: the running inner source has nothing left to deliver
@@ -344,6 +350,19 @@ func c12Drive(ctx *c12Ctx, in *c12In, run func(), shutdown func(), isTerminated 
 		select {
 		case <-ctx.fired:
 		default:
+			if selfReturned {
+				// Run returned without anybody calling Shutdown (handler error, stop block, failure of an inner
+				// source): the source must reach Terminated by itself, our Shutdown below must not mask it
+				for i := 0; i < 300 && !isTerminated(); i++ {
+					time.Sleep(time.Millisecond)
+				}
+				if !isTerminated() {
+					obs.Returned = true
+					obs.Hang = true
+					atomic.AddInt32(&c12Leaked, 1)
+					return
+				}
+			}
 			// no directed injection happened (or Run is over): plain Shutdown from this goroutine,
 			// in the background so that a blocked Shutdown cannot block the harness
 			go shutdown()
@@ -800,6 +819,7 @@ func c12ExecMux(in *c12In) *c12Obs {
 		}
 	}
 	isParked := waitParked()
+	failChecked, failShutOK := false, true
 	inner := func(k int) *c12Src {
 		ctx.mu.Lock()
 		defer ctx.mu.Unlock()
@@ -818,6 +838,21 @@ func c12ExecMux(in *c12In) *c12Obs {
 		case "deliver":
 			if s := inner(c.K); s != nil {
 				s.deliver()
+			}
+			if atomic.LoadInt32(&ctx.failed) == 1 && !failChecked {
+				// the handler just failed: by now (no other Shutdown needed) the multiplexed source must be
+				// terminated and every inner source it started must be shut down
+				failChecked = true
+				if !mx.IsTerminated() {
+					failShutOK = false
+				}
+				ctx.mu.Lock()
+				for _, s := range ctx.inners {
+					if atomic.LoadInt32(&s.expect) == 1 && !s.IsTerminating() {
+						failShutOK = false
+					}
+				}
+				ctx.mu.Unlock()
 			}
 		case "shutdown":
 			shutOnce.Do(func() {})
@@ -867,6 +902,9 @@ func c12ExecMux(in *c12In) *c12Obs {
 		}
 	}
 	ctx.mu.Unlock()
+	if !failShutOK {
+		obs.AllShut = false
+	}
 	return obs
 }
 
@@ -930,6 +968,7 @@ func c12ExecMuxStress(in *c12In) *c12Obs {
 		return true
 	}
 	runDone := make(chan struct{})
+	failNoShutdown := false
 	go func() {
 		defer func() { atomic.StoreInt32(&ctx.runRet, 1); close(runDone) }()
 		mx.Run()
@@ -942,6 +981,9 @@ func c12ExecMuxStress(in *c12In) *c12Obs {
 		select {
 		case <-mx.Terminating():
 		case <-time.After(300 * time.Millisecond):
+			if atomic.LoadInt32(&ctx.failed) == 1 {
+				failNoShutdown = true // the handler failed and the source did not shut itself down
+			}
 			go mx.Shutdown(nil)
 		}
 	}
@@ -978,6 +1020,9 @@ func c12ExecMuxStress(in *c12In) *c12Obs {
 	time.Sleep(300 * time.Microsecond)
 	obs.After = int(atomic.LoadInt32(&ctx.after))
 	obs.Overlap = atomic.LoadInt32(&ctx.overlap) == 1
+	if failNoShutdown {
+		obs.AllShut = false
+	}
 	return obs
 }
 
